@@ -969,6 +969,16 @@ impl Server {
                         }
                     };
 
+                    // Statements still waiting for their ParseComplete at this point were skipped
+                    // by the server after an error, they do not exist there.
+                    while let Some(prepared_stmt_name) =
+                        self.registering_prepared_statement.pop_front()
+                    {
+                        if let Some(ref mut cache) = self.prepared_statement_cache {
+                            cache.pop(&prepared_stmt_name);
+                        }
+                    }
+
                     // There is no more data available from the server.
                     self.data_available = false;
                     break;
@@ -1197,6 +1207,16 @@ impl Server {
         should_send_parse_to_server: bool,
     ) -> Result<(), Error> {
         if !self.has_prepared_statement(&parse.name) {
+            // The statements registered before this one are answered later, with the client's batch.
+            // When the parse is sent right away, its answer is about this statement alone.
+            let mut registered_for_batch = VecDeque::new();
+            if should_send_parse_to_server {
+                std::mem::swap(
+                    &mut registered_for_batch,
+                    &mut self.registering_prepared_statement,
+                );
+            }
+
             self.registering_prepared_statement
                 .push_back(parse.name.clone());
 
@@ -1228,6 +1248,10 @@ impl Server {
                         break;
                     }
                 }
+            }
+
+            if should_send_parse_to_server {
+                self.registering_prepared_statement = registered_for_batch;
             }
         };
 
